@@ -23,12 +23,21 @@ using namespace hr;
 
 namespace {
 
+// huge=1: the real capacity is 2^32 + 1 instead of the model's capacity (the storage is never touched beyond a few pages; the replayed
+// behaviours never fill the model's buffer, so the answers do not depend on the capacity)
+size_t g_huge = 0;
+
 template <class T>
 struct Val;
 template <>
 struct Val<int> {
     static int make(int v) { return v; }
     static long get(const int &x) { return x; }
+};
+template <>
+struct Val<unsigned char> {   // element type of the buffers with more than 2^32 slots
+    static unsigned char make(int v) { return (unsigned char) v; }
+    static long get(const unsigned char &x) { return x; }
 };
 template <>
 struct Val<std::string> {
@@ -51,7 +60,7 @@ std::string observe(RB &rb) {
     using T = typename RB::value_type;
     std::string s = "{";
     size_t n = rb.size();
-    s += "\"size\":" + std::to_string(n) + ",\"cap\":" + std::to_string(rb.capacity());
+    s += "\"size\":" + std::to_string(n) + ",\"cap\":" + std::to_string(rb.capacity() - g_huge);
     s += ",\"empty\":" + std::string(rb.empty() ? "true" : "false") + ",\"full\":" + std::string(rb.full() ? "true" : "false");
     std::vector<long> items, iter, citer;
     for (size_t i = 0; i < n; ++i) items.push_back(Val<T>::get(rb[i]));
@@ -81,7 +90,7 @@ std::string observe(RB &rb) {
     itok = itok && hr::iter_algebra_ok(rb) && hr::iter_algebra_ok(crb);
     s += ",\"itok\":" + std::string(itok ? "true" : "false");
 #ifdef VS_PROJECT
-    s += ",\"pos\":" + std::to_string((long) rb.m_pos);
+    if (!g_huge) s += ",\"pos\":" + std::to_string((long) rb.m_pos);
 #endif
     // operator== against an independently built buffer of the other overwrite mode
     {
@@ -117,7 +126,9 @@ template <class T, bool OW>
 void run_typed(const Execution &ex) {
     using RB = tulz::RingBuffer<T, OW>;
     trk::reg().reset();
-    size_t cap = (size_t) ex.cfg.num("cap", 1);
+    // 2^32 + 1 slots whatever the model's capacity is: index arithmetic that loses the upper half would wrap after ONE element
+    g_huge = ex.cfg.num("huge", 0) != 0 ? ((size_t) 1 << 32) + 1 - (size_t) ex.cfg.num("cap", 1) : 0;
+    size_t cap = (size_t) ex.cfg.num("cap", 1) + g_huge;
     int init = (int) ex.cfg.num("init", 0);
     RB *obj[2] = {nullptr, nullptr};
     if (init == 0 && !ex.cfg.has("list")) {
@@ -241,6 +252,8 @@ void run_exec(const Execution &ex) {
     bool ow = ex.cfg.num("ow", 1) != 0;
     if (ty == "int")
         ow ? run_typed<int, true>(ex) : run_typed<int, false>(ex);
+    else if (ty == "u8")
+        ow ? run_typed<unsigned char, true>(ex) : run_typed<unsigned char, false>(ex);
     else if (ty == "str")
         ow ? run_typed<std::string, true>(ex) : run_typed<std::string, false>(ex);
     else
